@@ -1775,13 +1775,16 @@ class Interp:
                     route(tg, s2)
         return backs, exits
 
-    def try_unroll(self, ctx, h, ins, limit=9):
+    def try_unroll(self, ctx, h, ins, limit=None):
         """exact unrolling of a small loop: returns exits if the loop is left
         on every path within `limit` iterations, else None"""
         exits = []
         cur = list(ins)
         saved_events = len(self.events)
         saved_stats = dict(self.stats)
+        if limit is None:
+            # tiny loops (a doubling / shifting search over the bits of a word) get a word's worth of iterations
+            limit = 66 if len(ctx.info.loops[h]) <= 10 else 9
         for k in range(limit):
             if not cur:
                 return exits
